@@ -303,77 +303,115 @@ def cas_shape(cache, rep):
     return n
 
 
-def cas_interference(cache, rep):
-    """behavioural: a concurrent operation is interposed between the load and the first compare-exchange of an
-    operation; the exchange fails and the retry must work on the fresh head (checked through conservation and the pool model)"""
+def cas_interference(cache, rep, capacity=4):
+    """behavioural: a complete concurrent operation (insert or fetch) is interposed between the load and the first or
+    the second compare-exchange of an operation, for every fill level 0..capacity of the shared pool.  The outcome must
+    be one a sequential pool allows: nothing handed out twice or never inserted, a fetch fails only if the pool was
+    empty at some moment, an insert only if it was full at some moment, and draining afterwards yields exactly the
+    blocks stored and not fetched.  Every access stays inside the record array."""
+    from interp import OutOfBounds
     unit = cache.unit
     n = 0
-    for scenario in ('push-vs-push', 'pop-vs-push', 'pop-vs-pop', 'push-vs-pop', 'push-vs-push@2', 'push-vs-pop@2', 'pop-vs-push@2', 'pop-vs-pop@2'):
-        n += 1
-        at = 2 if scenario.endswith('@2') else 1
-        scenario_base = scenario.split('@')[0]
-        this, it, hooks = cache.new()
-        # base content: two blocks stored
-        cache.op_insert(this, it, hooks, 'b1')
-        cache.op_insert(this, it, hooks, 'b2')
-        model = ['b1', 'b2']
-        state = {'done': False, 'got': None}
+    forced = 0
+    nviol = 0
+    for fill in range(0, capacity + 1):
+        for mine in ('insert', 'get'):
+            for other in ('insert', 'get'):
+                for at in (1, 2):
+                    scenario = '%s-vs-%s@%d/fill=%d' % ({'insert': 'push', 'get': 'pop'}[mine], {'insert': 'push', 'get': 'pop'}[other], at, fill)
+                    this, it, hooks = cache.new()
+                    base = ['b%d' % (k + 1) for k in range(fill)]
+                    for tag in base:
+                        cache.op_insert(this, it, hooks, tag)
+                    state = {'done': False, 'got': None, 'ok': None}
 
-        def other_insert(it_, list_cell):
-            sub = CacheHooks()
-            it2 = Interp(unit, sub)
-            cache.op_insert(this, it2, sub, 'other')
-            state['done'] = True
-
-        def other_get(it_, list_cell):
-            sub = CacheHooks()
-            it2 = Interp(unit, sub)
-            state['got'] = cache.op_get(this, it2, sub)
-            state['done'] = True
-        hooks.interfere_at = at
-        try:
-            if scenario_base == 'push-vs-push':
-                # our insert: pop(free) is first CAS (interfered by another insert)
-                hooks.interfere = other_insert
-                ok = cache.op_insert(this, it, hooks, 'mine')
-                stored = set(['b1', 'b2', 'other'] + (['mine'] if ok else []))
-            elif scenario_base == 'pop-vs-push':
-                hooks.interfere = other_insert
-                got = cache.op_get(this, it, hooks)
-                stored = set(['b1', 'b2', 'other']) - {got}
-                if got not in ('b2', 'other'):
-                    raise Violation19('F.cas.shape', 'fetch racing with an insert returned %s' % got, None)
-                if at == 2 and got == 'other':
-                    raise Violation19('F.cas.shape', 'fetch returned a block inserted after it had already taken its record', None)
-            elif scenario_base == 'pop-vs-pop':
-                hooks.interfere = other_get
-                got = cache.op_get(this, it, hooks)
-                if got is not None and got == state['got']:
-                    raise Violation19('F.cas.shape', 'two concurrent fetches both returned block %s' % got, None)
-                stored = set(['b1', 'b2']) - {got, state['got']}
-            else:
-                hooks.interfere = other_get
-                ok = cache.op_insert(this, it, hooks, 'mine')
-                stored = (set(['b1', 'b2']) - {state['got']}) | (set(['mine']) if ok else set())
-            if not state['done'] or hooks.cas_fail < 1:
-                raise AnalysisBroken('interference scenario %s did not force a failed exchange' % scenario)
-            free, data = cache.check_conservation(this)
-            # drain and compare the multiset of stored blocks
-            drained = set()
-            sub = CacheHooks()
-            it2 = Interp(unit, sub)
-            while True:
-                g = cache.op_get(this, it2, sub)
-                if g is None:
-                    break
-                if g in drained:
-                    raise Violation19('F.cas.shape', 'block %s handed out twice' % g, None)
-                drained.add(g)
-            if drained != stored:
-                raise Violation19('F.cas.shape', 'after the retried operation the pool holds %s, expected %s' % (sorted(drained), sorted(stored)), None)
-            rep.ok('F.cas.retry')
-        except Violation19 as v:
-            rep.fail('F.cas.retry', scenario, unit.loc(cache.f['pop']), 'a failed compare-exchange is retried on the freshly observed head', v.what, cache.cls)
+                    def run_other(it_, list_cell, other=other, this=this):
+                        sub = CacheHooks()
+                        it2 = Interp(unit, sub)
+                        if other == 'insert':
+                            state['ok'] = cache.op_insert(this, it2, sub, 'other')
+                        else:
+                            state['got'] = cache.op_get(this, it2, sub)
+                        state['done'] = True
+                    hooks.interfere_at = at
+                    hooks.interfere = run_other
+                    hooks.cas_count = 0
+                    hooks.cas_fail = 0
+                    try:
+                        try:
+                            if mine == 'insert':
+                                ok = cache.op_insert(this, it, hooks, 'mine')
+                                got = None
+                            else:
+                                got = cache.op_get(this, it, hooks)
+                                ok = None
+                        except OutOfBounds as e:
+                            raise Violation19('F.cas.shape', 'access outside the record array while retrying: %s' % e, e.where)
+                        except NullDeref as e:
+                            raise Violation19('F.cas.shape', 'null record dereferenced while retrying: %s' % e, None)
+                        if not state['done']:
+                            continue  # the operation finished before reaching that compare-exchange: no such interleaving
+                        n += 1
+                        if hooks.cas_fail:
+                            forced += 1
+                        # what a sequential pool allows
+                        stored = set(base)
+                        if other == 'insert' and state['ok']:
+                            stored.add('other')
+                        if other == 'get' and state['got'] is not None:
+                            if state['got'] not in base:
+                                raise Violation19('F.cas.shape', 'the interposed fetch returned %s, which was never inserted' % state['got'], None)
+                            stored.discard(state['got'])
+                        if mine == 'get':
+                            if got is None:
+                                may_be_empty = fill == 0 or (fill == 1 and other == 'get')
+                                if not may_be_empty:
+                                    raise Violation19('F.cas.shape', 'fetch failed although the pool was never empty (fill %d, concurrent %s)' % (fill, other), None)
+                            else:
+                                if other == 'get' and got == state['got']:
+                                    raise Violation19('F.cas.shape', 'two concurrent fetches both returned block %s' % got, None)
+                                if got not in stored:
+                                    raise Violation19('F.cas.shape', 'fetch returned %s, which is not a block stored in the pool' % got, None)
+                                if at == 2 and got == 'other':
+                                    raise Violation19('F.cas.shape', 'fetch returned a block inserted after it had already taken its record', None)
+                                stored.discard(got)
+                        else:
+                            if not ok:
+                                may_be_full = fill == capacity or (fill == capacity - 1 and other == 'insert' and state['ok'])
+                                if not may_be_full:
+                                    raise Violation19('F.cas.shape', 'insert failed although the pool was never full (fill %d, concurrent %s)' % (fill, other), None)
+                            else:
+                                stored.add('mine')
+                        if other == 'insert' and not state['ok'] and not (fill == capacity or (fill == capacity - 1 and mine == 'insert')):
+                            raise Violation19('F.cas.shape', 'the interposed insert failed although the pool was never full', None)
+                        if len(stored) > capacity:
+                            raise Violation19('F.cas.shape', 'more blocks accepted (%d) than the capacity %d' % (len(stored), capacity), None)
+                        cache.check_conservation(this)
+                        drained = set()
+                        sub = CacheHooks()
+                        it2 = Interp(unit, sub)
+                        while True:
+                            try:
+                                g = cache.op_get(this, it2, sub)
+                            except OutOfBounds as e:
+                                raise Violation19('F.cas.shape', 'access outside the record array while draining: %s' % e, e.where)
+                            if g is None:
+                                break
+                            if g in drained:
+                                raise Violation19('F.cas.shape', 'block %s handed out twice' % g, None)
+                            drained.add(g)
+                        if drained != stored:
+                            raise Violation19('F.cas.shape', 'after the retried operation the pool holds %s, expected %s' % (sorted(drained), sorted(stored)), None)
+                        rep.ok('F.cas.retry')
+                    except Violation19 as v:
+                        n += 0 if state['done'] else 1
+                        nviol += 1
+                        rep.fail('F.cas.retry', scenario, v.where or unit.loc(cache.f['pop']), 'a failed compare-exchange is retried on the freshly observed head', v.what, cache.cls)
+    if not nviol:
+        rep.floor('F.cas.retry', n, 24)
+        if forced < 12:
+            raise AnalysisBroken('only %d interference scenarios forced a failed exchange' % forced)
+    rep.sample('F.cas.retry', '%d interleavings (fill 0..%d x insert/fetch x insert/fetch x first/second exchange), %d with a failed and retried exchange' % (n, capacity, forced))
     return n
 
 
